@@ -41,7 +41,7 @@ def order_of(eng, f: FuncInfo, it: ast.AST, defs: Defs, depth: int = 0) -> Tuple
                 return "other:reverse=True", base
             if key is None:
                 return "other:sorted without key", base
-            if key_is_field_id(key):
+            if key_is_field_id(key, eng, f):
                 return "sorted", base
             return "other:sort key %s is not field_id" % norm(key, 50), base
         if d in ("list", "tuple", "iter") and it.args:
@@ -54,7 +54,25 @@ def order_of(eng, f: FuncInfo, it: ast.AST, defs: Defs, depth: int = 0) -> Tuple
     if isinstance(it, ast.Name) and depth < 3:
         vals = [v for k, v, st in defs.values(it.id) if k == "assign" and v is not None]
         if len(vals) == 1:
-            return order_of(eng, f, vals[0], defs, depth + 1)
+            o, base = order_of(eng, f, vals[0], defs, depth + 1)
+            sorts = inplace_sorts(f, it.id)
+            if sorts:
+                # xs = list(<fields>); xs.sort(key=...): the iteration order is the in-place sort's
+                v0 = vals[0]
+                is_copy = (isinstance(v0, ast.Call) and (dotted(v0.func) or "").split(".")[-1] in ("list", "copy", "sorted")) or isinstance(v0, (ast.ListComp, ast.Subscript))
+                if len(sorts) != 1:
+                    return "other:sorted in place more than once", base
+                c = sorts[0]
+                key = next((k.value for k in c.keywords if k.arg == "key"), None)
+                rev = any(k.arg == "reverse" and not (isinstance(k.value, ast.Constant) and not k.value.value) for k in c.keywords)
+                if rev:
+                    return "other:reverse=True", base
+                if key is None:
+                    return "other:sorted without key", base
+                if key_is_field_id(key, eng, f):
+                    return "sorted", base
+                return "other:sort key %s is not field_id" % norm(key, 50), base
+            return o, base
     if isinstance(it, ast.Subscript) and isinstance(it.slice, ast.Slice):
         step = it.slice.step
         if step is not None:
@@ -94,14 +112,38 @@ def helper_order(eng, f: FuncInfo, it: ast.AST):
     return "unknown: returns differ", g.qual
 
 
-def key_is_field_id(key: ast.AST) -> bool:
+def key_is_field_id(key: ast.AST, eng=None, f: Optional[FuncInfo] = None) -> bool:
+    """key function returns its argument's field_id: lambda p: p.field_id | attrgetter('field_id') | a named
+    function / method whose body is `return <param>.field_id` (resolved when eng and f are given)"""
     if isinstance(key, ast.Lambda) and len(key.args.args) == 1:
         p = key.args.args[0].arg
         b = key.body
         return isinstance(b, ast.Attribute) and b.attr == "field_id" and isinstance(b.value, ast.Name) and b.value.id == p
     if isinstance(key, ast.Call) and (dotted(key.func) or "").split(".")[-1] == "attrgetter":
         return len(key.args) == 1 and isinstance(key.args[0], ast.Constant) and key.args[0].value == "field_id"
+    if eng is not None and f is not None and isinstance(key, (ast.Name, ast.Attribute)):
+        r = eng.prog.resolve_expr_symbol(f.module, f, key)
+        g = None
+        if r and r[0] in ("func", "localfunc"):
+            g = eng.prog.functions.get(r[1])
+        elif isinstance(key, ast.Attribute) and isinstance(key.value, ast.Name) and key.value.id in ("self", "cls") and f.cls is not None:
+            g = eng.prog.find_method(f.cls, key.attr)
+        elif isinstance(key, ast.Name) and f.module is not None:
+            v = f.module.assigns.get(key.id)
+            if v is not None and not isinstance(v, ast.Name):
+                return key_is_field_id(v, eng, f)
+        if g is not None:
+            body = [st for st in g.node.body if not (isinstance(st, ast.Expr) and isinstance(st.value, ast.Constant))]
+            ps = [p.arg for p in g.params if p.arg not in ("self", "cls")]
+            if len(body) == 1 and isinstance(body[0], ast.Return) and len(ps) == 1:
+                b = body[0].value
+                return isinstance(b, ast.Attribute) and b.attr == "field_id" and isinstance(b.value, ast.Name) and b.value.id == ps[0]
     return False
+
+
+def inplace_sorts(f: FuncInfo, name: str) -> List[ast.Call]:
+    """`name.sort(...)` calls in f"""
+    return [n for n in walk_local(f.node) if isinstance(n, ast.Call) and isinstance(n.func, ast.Attribute) and n.func.attr == "sort" and isinstance(n.func.value, ast.Name) and n.func.value.id == name]
 
 
 def is_field_list(t) -> bool:
